@@ -6,8 +6,11 @@ package main
 import (
 	"fmt"
 	"go/types"
+	"os"
 	"sync/atomic"
 )
+
+var schedTrace = os.Getenv("SYMGO_SCHEDTRACE") != ""
 
 const (
 	tRunnable = iota
@@ -223,6 +226,10 @@ func (p *pathCtx) reschedule() {
 	var next *thread
 	if len(runnable) == 1 {
 		next = runnable[0]
+	} else if p.ex.cfg.Preempt == -2 {
+		// one canonical schedule: never preempt, and when the current thread cannot continue run the
+		// runnable thread with the lowest id
+		next = runnable[0]
 	} else if cur.state == tRunnable && p.ex.cfg.Preempt >= 0 && p.preemptions >= p.ex.cfg.Preempt {
 		next = cur
 	} else {
@@ -233,6 +240,9 @@ func (p *pathCtx) reschedule() {
 	}
 	if next == cur {
 		return
+	}
+	if schedTrace {
+		fmt.Fprintf(os.Stderr, "SCHED %s(%s) -> %s%s\n", cur.name, []string{"runnable", "blocked:" + cur.reason, "done"}[cur.state], next.name, p.interp.where())
 	}
 	p.cur = next
 	next.resume <- struct{}{}
@@ -248,7 +258,7 @@ func (p *pathCtx) deadlockOutcome(stuck []string) {
 			for _, c := range t.pend.cases {
 				if c.ch != nil && c.ch.ticker && !c.ch.stopped && c.ch.ticksLeft <= 0 {
 					atomic.AddInt64(&p.ex.truncated, 1)
-					p.finish(pathAbort{"stop", "tick bound reached"})
+					p.finish(pathAbort{"stop", fmt.Sprintf("tick bound reached; blocked: %v", stuck)})
 					return
 				}
 			}
@@ -428,6 +438,10 @@ func (p *pathCtx) chanOp(cases []chanCase, hasDefault bool, reason string) (int,
 		k := 0
 		if len(ready) > 1 {
 			k = p.choose(len(ready), "select")
+		}
+		if schedTrace {
+			c := cases[ready[k]]
+			fmt.Fprintf(os.Stderr, "CHAN %s: case %d of %d ready (send=%v chan#%d cap=%d len=%d)%s\n", p.cur.name, ready[k], len(cases), c.send, c.ch.id, c.ch.cap, len(c.ch.buf), p.interp.where())
 		}
 		v, ok := p.perform(cases[ready[k]])
 		return ready[k], v, ok
